@@ -491,6 +491,14 @@ fn spawn_async_ao_list_in_task'''),
                             options.append(true);''', '''                            options.create(true);
                             options.truncate(true);
                             options.append(true);'''),
+        ('here-string-no-newline', IN, "            expanded_word.push('\\n');\n", ""),
+        ('here-string-default-fd-stdout', IN, '''            // If not specified, default to stdin (fd 0).
+            let fd_num = fd_num.unwrap_or(0);
+
+            let mut expanded_word''', '''            let fd_num = fd_num.unwrap_or(1);
+
+            let mut expanded_word'''),
+        ('quoted-heredoc-expanded', IN, 'let io_here_doc = if io_here.requires_expansion {', 'let io_here_doc = if !io_here.requires_expansion {'),
         ('procsubst-fd-zero', IN, '''        candidate_fd_num -= 1;
         if candidate_fd_num == 0 {''', '''        candidate_fd_num -= 1;
         if candidate_fd_num < 0 {'''),
